@@ -31,12 +31,13 @@ CHECKS = {
    note=TB + "Modelled, not verified: Expr.v (get_r/get_w/get_expr_ids/MatchExpr/test_set).",
    design='4/C16'),
  'C05': dict(
-   technique='Gallina model of expr_simp (every rewrite rule, merge_sliceto_slice, the fixpoint loop) tied by exact-tree correspondence; Coq theorems on the model (growing: see level text); exhaustive 2^16-valuation search on disagreement',
-   text=("Model Simp.v mirrors _expr_simp rule for rule (flatten/sort/constant folding, 25 rules, slice/compose merging, the visit + while e_new != e loop with explicit fuel). "
-         "Tie: exact result trees on rule-targeted families (one per rule and side condition, permuted, embedded in contexts) and typed random trees; on any disagreement the check evaluates "
-         "width and value of input vs output under all 2^16 valuations (two 8-bit variables) or boundary cross-products. Theorems currently in props/C05.v are instance-level (vm_compute); the "
-         "universal soundness theorem simp_sound is work in progress in this round and NOT yet claimed — until then this property is decided by the tie + search, i.e. below proof strength."),
-   note=TB + "Modelled, not verified: Simp.v (hand transcription of expression_helper.py). The universal theorem (all trees x all valuations) is not yet proved; termination is bounded by explicit fuel (OutOfFuel is a distinct outcome that the correspondence never observed).",
+   technique='Coq proof by induction over fuel and over the nested expression type of the soundness of the simplifier model on a well-formed fragment (width, value under every valuation, well-formedness preserved) + exact-tree correspondence of the model with expr_simp; exhaustive valuation search outside the fragment',
+   text=("Theorem (props/C05.v, closed): for EVERY tree of fragment 1 (constants, identifiers, memory cells with any well-formed address, conditionals, n-ary + * ^ & | on operands of one width, unary/binary minus), every fuel and every result of Simp.simp: "
+         "the result is well formed, has the same width and the same value under every valuation of identifiers, every memory and every operator interpretation — through flattening, canonical sorting, constant folding via the modint classes, A op 0, singleton, "
+         "duplicate/cancelling-pair removal, all minus rules, the conditional rules, the bottom-up visit and the fixpoint loop. NOT yet proved: slices, concatenations (merge_sliceto_slice), shift/rotate/==/parity rules; termination is by explicit fuel (OutOfFuel never observed). "
+         "Model Simp.v mirrors _expr_simp rule for rule; tie: exact result trees on rule-targeted families (one per rule and side condition, permuted, embedded) and typed random trees; on any disagreement width and value of input vs output are evaluated "
+         "under all 2^16 valuations of two 8-bit variables or boundary cross-products."),
+   note=TB + "Modelled, not verified: Simp.v is a hand transcription of expression_helper.py (tied by exact-tree correspondence on every run). Outside fragment 1 the property is decided by the tie + search, below proof strength.",
    design='4/C05', category='other'),
  'C13': dict(
    technique='Gallina model of expr_simp tied by exact-tree correspondence under several PYTHONHASHSEED values; idempotence and order-insensitivity evaluated on groups of permuted/re-associated spellings',
